@@ -100,6 +100,8 @@ pub trait Node {
     fn child(&self) -> Self::Owned;
     fn child_group(&self) -> Self::OwnedG;
     fn child_ref(&self) -> &Self::Borrowed;
+    /// a second method returning a borrow of the same wrapped type (its result must not disturb the first one's)
+    fn child_ref2(&self) -> &Self::Borrowed;
     fn child_mut(&mut self) -> &mut Self::BorrowedM;
     fn child_group_ref(&self) -> &Self::BorrowedG;
     fn consume(self) -> u64;
@@ -145,6 +147,9 @@ impl Node for NodeImp {
     }
     fn child_ref(&self) -> &LeafImp {
         &self.kid
+    }
+    fn child_ref2(&self) -> &LeafImp {
+        &self.kid_m
     }
     fn child_mut(&mut self) -> &mut LeafImp {
         &mut self.kid_m
